@@ -98,8 +98,25 @@ def path_seq(ctx, job, box):
                           '(a discarded or hidden cell reappeared)' % ('+'.join(seq), last))]
 
 
+def path_parser(ctx, job, box):
+    cols, lines = job.params['geom']
+    fin = job.params['final']
+    op = {'@': 'insert_characters', 'P': 'delete_characters'}[fin]
+    run = GridRun(ctx, box, cols, lines, cursor='pick', tabstops=0, titles='none', saved_columns='none', extra_mode=False)
+    is_some, n = feed_csi(run, ctx, fin, job.params['ndigits'])
+    if run.outcome == 'panic':
+        return run.panic_check()
+    L = run.L
+    ok = edit_oracle(L, run.pre, run.post, op, some(n), run.ss.cx, run.ss.cy, cols, lines)
+    return [run.check(ok, 'CSI %s through the parser: row after the edit differs from the documented splice' % fin),
+            run.check(frame(L, run.pre, run.post), 'CSI %s through the parser changed the cursor or other state' % fin)]
+
+
 def jobs(tier):
     js = []
+    for fin in '@P':
+        for nd in (0, 1, 2):
+            js.append(Job('parser/%s/%d/3x1' % (fin, nd), path_parser, final=fin, ndigits=nd, geom=(3, 1), prop=PROP))
     gs = [(1, 1), (2, 1), (3, 1), (3, 2)] if tier == 'quick' else [(1, 1), (2, 1), (3, 1), (4, 1), (3, 2), (5, 1)]
     for g in gs:
         for op in ('insert_characters', 'delete_characters'):
